@@ -4,6 +4,7 @@ import (
 	"bytes"
 	"fmt"
 	"io"
+	"runtime"
 	"testing"
 
 	"github.com/parquet-go/parquet-go"
@@ -166,7 +167,15 @@ func runConvCase(c ConvCase, o *kit.Obs) *kit.Failure {
 	ncalls := base.calls
 	for i := 0; i < ncalls; i++ {
 		src := &faultyReader{data: data, fail: i, short: c.Short, kind: c.Kind}
+		var m0, m1 runtime.MemStats
+		runtime.ReadMemStats(&m0)
 		n, err, bad := read(src)
+		runtime.ReadMemStats(&m1)
+		if grown := m1.TotalAlloc - m0.TotalAlloc; grown > 256<<20 {
+			// (the file is a few tens of KiB: a failed read must surface as an error, not as an
+			// attempt to allocate the size found in whatever was taken for a page header)
+			return kit.Failf("c14/converted/allocation"+feat, "ReadAt call %d of %d failing (short=%v kind=%d): reading the %d-byte file allocated %d MiB (err=%v)", i, ncalls, c.Short, c.Kind, len(data), grown>>20, err)
+		}
 		if bad != "" {
 			return kit.Failf("c14/converted/altered-rows"+feat, "ReadAt call %d of %d failing (short=%v kind=%d): %s", i, ncalls, c.Short, c.Kind, bad)
 		}
@@ -186,7 +195,7 @@ var convSpec = &kit.Spec[ConvCase]{
 	Property: "C14",
 	Name:     "converted",
 	Rule: "1-400 (a quarter: 400-1100) rows {id, repeated group l{x}} (lists of 0 or 1 element, small pages, read buffers of 256 / 1024 bytes or default) read through a target schema that adds an optional column y inside the repeated group — column-wise through NewRowGroupRowReader / MultiRowGroup over the converted row groups, through the converted row group's Rows(), through NewReader(file, schema) — while every ReadAt call of the fault-free read fails once (own error, an error wrapping io.EOF, a plain io.EOF; outright or with a short count): " +
-		"the read reports an error or delivers every row (each compared). Non-trivial = at least 4 ReadAt calls.",
+		"the read reports an error or delivers every row (each compared), and no faulted read of these small files allocates more than 256 MiB. Non-trivial = at least 4 ReadAt calls.",
 	Assumptions: []string{"lists of at most one element: the chunk synthesized for an added column under a repeated group is wrong for longer lists (known family F36), which C12 judges"},
 	Gen:         genConvCase,
 	Run:         runConvCase,
